@@ -5,11 +5,11 @@ import os
 import common
 
 B = "Sympler.Dyn."
-G = ["Sympler.PairGuards.C04_guards_table", "Sympler.PairGuards.C04_guards_table_covers"]
+G = ["Sympler.PairGuards.C04_guards_table", "Sympler.PairGuards.C04_guards_table_covers", "Sympler.PairGuards.C07_no_write_guarded_by_list_cutoff"]
 THEOREMS_C04 = [B + t for t in ["Bridge_pair_first", "Bridge_pair_second", "Bridge_pair_guards", "Bridge_pair_cutoff"]] + G
 THEOREMS_C05 = [B + t for t in ["Bridge_vv_step1", "Bridge_vv_step2", "Bridge_euler_step1", "Bridge_step_order"]]
 PL = ["Sympler.PairLists." + t for t in ["C07_lists_cleared_together", "C07_lists_cleared_for_all", "C07_clear_unconditional_on_size", "C07_clear_sites_cover"]]
-THEOREMS_C07 = [B + t for t in ["Bridge_pair_first", "Bridge_pair_second", "Bridge_pair_guards", "Bridge_pair_cutoff"]] + PL
+THEOREMS_C07 = [B + t for t in ["Bridge_pair_first", "Bridge_pair_second", "Bridge_pair_guards", "Bridge_pair_cutoff"]] + PL + ["Sympler.PairGuards.C07_no_write_guarded_by_list_cutoff"]
 IL = ["Sympler.IntLoops.C10_integrators_free_only", "Sympler.IntLoops.C10_integrator_loops_cover", "Sympler.IntLoops.C10_controller_loops_free_only"]
 THEOREMS_C10 = [B + t for t in ["Bridge_pair_guards"]] + G + IL
 EXTRA = ["Props.DynBridge", "Props.PairGuards", "Props.PairLists", "Props.IntLoops"]
